@@ -788,6 +788,73 @@ class ScipyProxy:
         except AttributeError:
             return importlib.import_module('scipy.' + name)
 
+
+# ------------------------------------------------------------------ networkx shim (geodesic_transform)
+
+class _Edges:
+    def __init__(self, g):
+        self.g = g
+
+    def data(self, key):
+        return [(i, j, w) for (i, j), w in sorted(self.g.w.items())]
+
+
+class _Graph:
+    """weighted undirected graph as networkx.from_numpy_array builds it: an edge for every non-zero entry"""
+
+    def __init__(self, A):
+        A = real_np.asarray(A)
+        self.n = A.shape[0]
+        self.w = {}
+        for i in range(self.n):
+            for j in range(i + 1, self.n):
+                x = R.lift(A[i, j])
+                if x.tag == 'nan':
+                    raise Unsupported('nan edge weight')
+                if bool(x != 0):                 # forks if undecided
+                    self.w[(i, j)] = x
+        self.edges = _Edges(self)
+
+    def remove_edges_from(self, ids):
+        for e in ids:
+            i, j = (e[0], e[1]) if e[0] < e[1] else (e[1], e[0])
+            self.w.pop((i, j), None)
+
+
+class NxProxy:
+    """stands in for networkx inside rdm/transform.py when edge weights are symbolic"""
+
+    def from_numpy_array(self, A, *a, **k):
+        if real_np.asarray(A).dtype != object:
+            import networkx
+            return networkx.from_numpy_array(A, *a, **k)
+        return _Graph(A)
+
+    def floyd_warshall_numpy(self, G, *a, **k):
+        if not isinstance(G, _Graph):
+            import networkx
+            return networkx.floyd_warshall_numpy(G, *a, **k)
+        n = G.n
+        from .core import PINF
+        d = [[ZERO if i == j else PINF for j in range(n)] for i in range(n)]
+        for (i, j), w in G.w.items():
+            d[i][j] = d[j][i] = w
+        for k_ in range(n):
+            for i in range(n):
+                for j in range(n):
+                    via = d[i][k_] + d[k_][j]
+                    if bool(via < d[i][j]):      # forks on undecided comparisons
+                        d[i][j] = via
+        out = real_np.empty((n, n), dtype=object)
+        for i in range(n):
+            for j in range(n):
+                out[i, j] = d[i][j]
+        return out.view(SymArray)
+
+    def __getattr__(self, name):
+        import networkx
+        return getattr(networkx, name)
+
 PROXY = NpProxy()
 _saved = []
 _MISSING = object()
@@ -839,6 +906,11 @@ def install(extra_modules=()):
         return PROXY
     stats_proxy = _StatsProxy()
     scipy_proxy = ScipyProxy()
+    try:
+        import networkx as real_nx
+    except ImportError:
+        real_nx = None
+    nx_proxy = NxProxy()
     import scipy as real_scipy
     import scipy.sparse as real_sparse
     import rsatoolbox.util.matrix as rmat
@@ -855,6 +927,8 @@ def install(extra_modules=()):
                 new = PROXY
             elif gval is sst:
                 new = stats_proxy
+            elif real_nx is not None and gval is real_nx:
+                new = nx_proxy
             elif gval is real_scipy:
                 new = scipy_proxy
             elif gval is real_sparse:
